@@ -373,8 +373,12 @@ func (r *Run) Finish() {
 	for _, c := range r.capsHit {
 		fmt.Println("  cap:", c)
 	}
-	for _, c := range r.incon {
-		fmt.Println("  inconclusive:", c)
+	for i, c := range r.incon {
+		if i >= 5 {
+			fmt.Printf("  inconclusive: ... and %d more\n", len(r.incon)-i)
+			break
+		}
+		fmt.Println("  inconclusive:", Short(c, 300))
 	}
 	if len(r.findingSigs) > 0 {
 		var sigs []string
